@@ -7,6 +7,7 @@ three range mappers, to the escape predicates or to PortableDataHash breaks one 
 import ArvVerif.Gen.FactsC10
 import ArvVerif.Model.C10_Py
 import ArvVerif.Model.C10_Digest
+import ArvVerif.Model.C10_PyReplace
 namespace ArvVerif.Tie.C10
 open ArvVerif.Facts.C10
 
@@ -370,5 +371,47 @@ theorem tie_pkgParseLocAssigns : pkgParseLocAssigns =
      "b.Digest = blockDigest",
      "b.Size = int(blockSize)",
      "b.Hints = tokens[2:]"] := rfl
+
+/-! ## replace_range (third extension pass): Model/C10_PyReplace.lean -/
+
+/-- `replace_range`: the early exits, the append / extend-last test, the binary search call and the five range
+tests of the loop: Model `pyReplaceRange` / `rrLoop`. -/
+theorem tie_pyReplaceConds : pyReplaceConds =
+  ["if new_range_size == 0:",
+     "if len(data_locators) == 0:",
+     "if (last.range_start+last.range_size) == new_range_start:",
+     "if last.locator == new_locator and (last.segment_offset+last.range_size) == new_segment_offset:",
+     "i = first_block(data_locators, new_range_start)",
+     "while i < len(data_locators):",
+     "if new_range_end <= old_segment_start:",
+     "if old_segment_start <= new_range_start and new_range_end <= old_segment_end:",
+     "if (new_range_start-old_segment_start) > 0:",
+     "if (old_segment_end-new_range_end) > 0:",
+     "elif old_segment_start <= new_range_start and new_range_end > old_segment_end:",
+     "elif new_range_start < old_segment_start and new_range_end >= old_segment_end:",
+     "elif new_range_start < old_segment_start and new_range_end < old_segment_end:"] := rfl
+
+/-- the list edits of `replace_range` (and the index steps; the first `i += 1` is `locators_and_ranges`'): Model
+`rrLoop`'s pieces ⟨loc, start, size, segment_offset⟩. -/
+theorem tie_pyReplaceEdits : pyReplaceEdits =
+  ["i += 1",
+     "new_range_end = new_range_start + new_range_size",
+     "data_locators.append(Range(new_locator, new_range_start, new_range_size, new_segment_offset))",
+     "last.range_size += new_range_size",
+     "data_locators.append(Range(new_locator, new_range_start, new_range_size, new_segment_offset))",
+     "old_segment_start = dl.range_start",
+     "old_segment_end = old_segment_start + dl.range_size",
+     "data_locators[i] = Range(dl.locator, old_segment_start, (new_range_start-old_segment_start), dl.segment_offset)",
+     "data_locators.insert(i+1, Range(new_locator, new_range_start, new_range_size, new_segment_offset))",
+     "data_locators[i] = Range(new_locator, new_range_start, new_range_size, new_segment_offset)",
+     "i -= 1",
+     "data_locators.insert(i+2, Range(dl.locator, new_range_end, (old_segment_end-new_range_end), dl.segment_offset + (new_range_start-old_segment_start) + new_range_size))",
+     "data_locators[i] = Range(dl.locator, old_segment_start, (new_range_start-old_segment_start), dl.segment_offset)",
+     "data_locators.insert(i+1, Range(new_locator, new_range_start, new_range_size, new_segment_offset))",
+     "i += 1",
+     "del data_locators[i]",
+     "i -= 1",
+     "data_locators[i] = Range(dl.locator, new_range_end, (old_segment_end-new_range_end), dl.segment_offset + (new_range_end-old_segment_start))",
+     "i += 1"] := rfl
 
 end ArvVerif.Tie.C10
